@@ -845,11 +845,15 @@ func (e *Exec) rangeOp(st *State, fr *Frame, x *ssa.Range, site string) []*State
 			}
 			var outs []*State
 			perms := permutations(n)
+			choice := e.fresh("maporder", BV(64))
 			for pi, p := range perms {
 				s := st
 				if pi < len(perms)-1 {
 					s = st.Clone()
 				}
+				// the chosen iteration order is part of the path condition (forked states must be distinguishable
+				// when they are merged again)
+				s.Assume(Eq(choice, BVConst(uint64(pi), 64)))
 				nit := &IterData{}
 				for _, j := range p {
 					nit.Keys = append(nit.Keys, it.Keys[j])
